@@ -21,7 +21,7 @@ for g in reg.ALL:
 PY
 cd lean
 # root module = every model/spec/lemma/property file (Findings are built by their own checks)
-(find JinjaV -name '*.lean' | grep -v '^JinjaV/Findings/' | sort | sed 's|/|.|g; s|\.lean$||; s|^|import |') > JinjaV.lean
+/venv/bin/python -B ../tools/gen_wire_all.py
 lake build JinjaV jv-driver 2>&1 | tail -5
 test -x .lake/build/bin/jv-driver
 echo "(ping 1)" | .lake/build/bin/jv-driver
